@@ -17,7 +17,7 @@ TIMEOUT = 1500
 SLICE = 60
 NONTRIVIAL_MIN_TAGS = 3
 RULE = ("scenarios = per-thread programs over json_object_get / json_object_put / exclusive work on shared and private nodes "
-        "(2-12 threads, 1-4 nodes, loop bodies balanced per round, 1..30000 rounds, tails that release some or all references so "
+        "(exclusive work = serialise/parse back/compare, or an error path that records a last-error message; 2-12 threads, 1-4 nodes, loop bodies balanced per round, 1..30000 rounds, tails that release some or all references so "
         "that the last put happens inside the race or in the main thread), and first-hash races of 2-16 threads whose "
         "json_c_get_random_seed returns distinct candidates (some preceded by -1) after a rendezvous; every scenario is executed "
         "in a fresh process by the ThreadSanitizer build and by the plain gcc -DENABLE_THREADING build; compared: counter after "
@@ -55,8 +55,8 @@ MANIFEST = dict(
               "+ ThreadSanitizer / stress correspondence run",
     design="6/C18")
 
-# Both data races this check found on the tree it was built against were repaired by `fix:` commits
-# (aa9165f asserts in json_object_get/put, da611db lh_char_hash): nothing is recorded as a known finding,
+# The data races this check found on the tree it was built against were repaired by `fix:` commits
+# (aa9165f asserts in json_object_get/put, da611db lh_char_hash, 06700af last-error buffer): nothing is recorded as a known finding,
 # every ThreadSanitizer report is a violation.
 KNOWN = []
 
@@ -74,16 +74,15 @@ DEFECTS = [
                   "`(uint32_t)random_seed`) vs __sync_val_compare_and_swap(&random_seed, -1, seed) by another thread",
          expected="no data race",
          suggested_fix="__atomic_load_n(&random_seed, __ATOMIC_RELAXED) for both reads (applied)"),
-    dict(tag="OBSERVATION outside C18's anchors: json_util.c _json_c_set_last_err",
+    dict(tag="thr.last-err.global-buffer (fixed by /repo 06700af; guarded by the `e` ops of the disjoint-tree family)",
          input="nodes 2 / t 0 0:1 300 e0 / / t 1 1:1 300 e1 / / run tsan     (eN = json_object_deep_copy of the private node N, which "
                "carries userdata set with json_object_set_userdata: the copy fails in json_object_copy_serializer_data)",
          observed="ThreadSanitizer: data race (write/write in vsnprintf called from _json_c_set_last_err, json_util.c:78) on the process-global "
-                  "static char _last_err[256]: two threads working on DISJOINT trees interfere through the last-error buffer whenever both "
-                  "hit an error path that records a message; json_util_get_last_err() may return a torn message",
+                  "static char _last_err[256]: two threads working on DISJOINT trees interfered through the last-error buffer whenever both "
+                  "hit an error path that records a message (reproduced 6/6 runs)",
          expected="threads working on disjoint trees never interfere",
-         suggested_fix="make the buffer thread-local where available: `static SPEC___THREAD char _last_err[256]` under HAVE___THREAD "
-                       "(config.h already provides both for json_object.c's tls_serialization_float_format); note tools/extract/st_fdio.py "
-                       "matches the declaration `static char _last_err[N]`"),
+         suggested_fix="thread-local buffer: `static SPEC___THREAD char _last_err[256]` under HAVE___THREAD (applied; "
+                       "json_util_get_last_err() now returns the calling thread's last error)"),
 ]
 
 _SIDE = None
@@ -237,7 +236,9 @@ def balanced_body(rng, held, nodes, length, work_ok=()):
         n = rng.choice(nodes)
         r = rng.random()
         if n in work_ok and r < 0.25:
-            ops.append("w%d" % n)
+            # exclusive work on a private node; `e` = through an error path of the library that records a
+            # last-error message (json_object_deep_copy of a node carrying userdata fails)
+            ops.append("%s%d" % ("e" if rng.chance(0.4) else "w", n))
         elif r < 0.55 or held[n] + bal[n] <= 1:
             ops.append("g%d" % n); bal[n] += 1
         else:
